@@ -70,6 +70,10 @@ func (t Text) Index(k any) (any, error) {
 	if err != nil {
 		return nil, err
 	} else if index.Slice {
+		if index.Lower == index.Upper {
+			// An empty Text is always nil.
+			return Text(nil), nil
+		}
 		return t[index.Lower:index.Upper], nil
 	} else {
 		return t[index.Lower], nil
@@ -134,6 +138,10 @@ func (t Text) Partition(indices ...int) []Text {
 
 // Clone returns a deep copy of Text.
 func (t Text) Clone() Text {
+	if len(t) == 0 {
+		// An empty Text is always nil.
+		return nil
+	}
 	newt := make(Text, len(t))
 	for i, seg := range t {
 		newt[i] = seg.Clone()
